@@ -324,6 +324,17 @@ def K():
     return Program(m, ['e0', 'eb', 'ed1', 'ed2'], evt_base={'ed1': 'eb', 'ed2': 'ed1'})
 
 
+def G1():
+    """functor front-end: And_/Or_/Not_ guard expressions (short circuit, precedence by nesting) and ActionSequence_"""
+    m = Machine('G1', [['A', 'B']],
+                [St('A', internal=[IRow('e2', act=('seq', [7, 8]), guard=('or', 5, ('and', 6, 1)))])],
+                [Row('A', 'e0', 'B', act=('seq', [1, 2, 3]), guard=('and', 1, ('or', 2, ('not', 3)))),
+                 Row('A', 'e0', None, act=4, guard=('not', ('and', 4, 1))),
+                 Row('B', 'e0', 'A', act=('seq', [5]), guard=('or', ('not', 1), 2)),
+                 Row('B', 'e1', None, act=6, guard=('and', ('not', 2), ('not', 3)))])
+    return Program(m, ['e0', 'e1', 'e2'])
+
+
 def FL3():
     """three levels; a flag carried only by a state of the innermost machine (and by no direct state of the middle one)"""
     p = H3()
@@ -345,7 +356,7 @@ def _pol(base, pol):
     return p
 
 
-CATALOG = {f.__name__: f for f in (Q, Q1, Q2, D, Dr, Da, K, FL3, F1, R2, R3, H2, H3, X, HIn, HIa, HIs, A, Ai, T, FL)}
+CATALOG = {f.__name__: f for f in (Q, Q1, Q2, D, Dr, Da, K, FL3, G1, F1, R2, R3, H2, H3, X, HIn, HIa, HIs, A, Ai, T, FL)}
 
 POLICIES = ['after_entry', 'after_transition_action', 'after_exit', 'before_transition']
 for _b in (F1, R2, H2):
